@@ -1115,7 +1115,7 @@ func (u *Unit) typeAssertVal(st *State, v Val, t types.Type, commaOk bool, pos t
 		ok := u.uninterp("implements_"+fmt.Sprint(u.sc.tid(t)), []string{"Int"}, "Bool", app("dyntype", v.T))
 		okT := sAnd(sNot(sEq(v.T, "0")), ok)
 		if !commaOk {
-			if u.contract == nil || !u.contract.MayPanic {
+			if u.contract == nil || !u.contract.MayPanic || u.contract.Sweep {
 				u.oblige("nopanic", "assert."+u.safeLabel("assert"), pos, st, okT, "type assertion holds")
 			}
 			st.assume(okT)
@@ -1129,7 +1129,7 @@ func (u *Unit) typeAssertVal(st *State, v Val, t types.Type, commaOk bool, pos t
 		st.assume(sImp(okT, inv))
 	}
 	if !commaOk {
-		if u.contract == nil || !u.contract.MayPanic {
+		if u.contract == nil || !u.contract.MayPanic || u.contract.Sweep {
 			u.oblige("nopanic", "assert."+u.safeLabel("assert"), pos, st, okT, "type assertion holds")
 		}
 		st.assume(okT)
